@@ -27,6 +27,7 @@ type vServer struct {
 	s   *Server
 	dir string
 	api *apiServer
+	cfg *Config
 }
 
 // vStartServer starts a bootstrap single-node server; mod may adjust the configuration.
@@ -67,7 +68,34 @@ func vStartServer(name string, mod func(*Config)) *vServer {
 	if !s.IsLeader() {
 		panic("single-node server did not become metadata leader")
 	}
-	return &vServer{s: s, dir: dir, api: &apiServer{Server: s}}
+	return &vServer{s: s, dir: dir, api: &apiServer{Server: s}, cfg: cfg}
+}
+
+// restart stops the server and starts it again on the same data directory.
+func (v *vServer) restart() error {
+	done := make(chan struct{})
+	go func() { v.s.Stop(); close(done) }()
+	select {
+	case <-done:
+	case <-time.After(20 * time.Second):
+		return fmt.Errorf("server did not stop")
+	}
+	s, err := RunServerWithConfig(v.cfg)
+	if err != nil {
+		return err
+	}
+	deadline := time.Now().Add(15 * time.Second)
+	for time.Now().Before(deadline) {
+		if s.IsRunning() && s.getRaft() != nil && s.IsLeader() {
+			break
+		}
+		time.Sleep(10 * time.Millisecond)
+	}
+	if !s.IsLeader() {
+		return fmt.Errorf("restarted server did not become metadata leader")
+	}
+	v.s, v.api = s, &apiServer{Server: s}
+	return nil
 }
 
 func (v *vServer) stop() {
